@@ -87,7 +87,11 @@ func buildTemplate(c Case) (*scriggo.Template, error) {
 	for k, v := range c.Vars {
 		g[k] = v
 	}
-	return scriggo.BuildTemplate(scriggo.Files{"index.html": []byte(c.Src)}, "index.html", &scriggo.BuildOptions{Globals: g, AllowGoStmt: true, Packages: packages})
+	files := scriggo.Files{"index.html": []byte(c.Src)}
+	for name, src := range c.Extra {
+		files[name] = []byte(src)
+	}
+	return scriggo.BuildTemplate(files, "index.html", &scriggo.BuildOptions{Globals: g, AllowGoStmt: true, Packages: packages})
 }
 
 func describe(err error) (string, string) {
